@@ -74,4 +74,16 @@ theorem pFitTo_self (k : Nat) (b : Bytes) (h : b.length = k) : pFitTo k b = b :=
 theorem pIpTo4_four (ip : Bytes) (h : ip.length = 4) : pIpTo4 ip = ip := by
   simp [pIpTo4, pIpTo4?, h]
 
+theorem bytes_len4 (b : Bytes) (h : b.length = 4) : ∃ x0 x1 x2 x3, b = [x0, x1, x2, x3] := by
+  match b, h with
+  | [x0, x1, x2, x3], _ => exact ⟨x0, x1, x2, x3, rfl⟩
+
+theorem bytes_len6 (b : Bytes) (h : b.length = 6) : ∃ x0 x1 x2 x3 x4 x5, b = [x0, x1, x2, x3, x4, x5] := by
+  match b, h with
+  | [x0, x1, x2, x3, x4, x5], _ => exact ⟨x0, x1, x2, x3, x4, x5, rfl⟩
+
+/-- the first `n` bytes of a buffer that starts with an `n`-byte string -/
+theorem take_prefix (n : Nat) (a r : Bytes) (h : a.length = n) : List.take n (a ++ r) = a := by
+  subst h; simp
+
 end OFV.Lemmas.RT
